@@ -12,7 +12,7 @@ use serde::{Deserialize, Serialize};
 
 #[derive(Clone, Debug, Serialize, Deserialize)]
 pub struct RangeOp {
-    /// 0: a..b  1: a..=b  2: ..b  3: ..=b  4: a..  5: ..  6: [i]
+    /// 0: a..b  1: a..=b  2: ..b  3: ..=b  4: a..  5: ..  6: [i]  7: the empty inclusive range a..=a-1
     pub form: u8,
     pub a: u16,
     pub b: u16,
@@ -21,6 +21,7 @@ pub struct RangeOp {
 #[derive(Clone, Debug, Serialize, Deserialize)]
 pub struct Oob {
     /// 0: a..b  1: a..=b  2: ..b  3: ..=b  4: a..  5: [i]  6: nth(i)  7: get(i)
+    /// 8: the empty-looking inclusive range x..=x-1 with x past the end  9: x..x with x past the end
     pub kind: u8,
     pub a: u16,
     /// how far past the end (1..=3)
@@ -67,7 +68,14 @@ pub struct Case {
 fn resolve(op: &RangeOp, len: usize) -> (u8, usize, usize) {
     let a = scale16(op.a, len);
     let b = a + scale16(op.b, len - a);
-    match op.form % 7 {
+    match op.form % 8 {
+        7 => {
+            if a >= 1 {
+                (7, a, a)
+            } else {
+                (0, a, a)
+            }
+        }
         0 => (0, a, b),
         1 => {
             if b > a {
@@ -105,12 +113,13 @@ fn apply<'a, C: Cm>(s: &'a SeqSlice<C>, form: u8, a: usize, b: usize) -> &'a Seq
         3 => &s[..=b - 1],
         4 => &s[a..],
         5 => &s[..],
+        7 => &s[a..=a - 1],
         _ => &s[a],
     }
 }
 
 fn form_name(f: u8) -> &'static str {
-    ["a..b", "a..=b", "..b", "..=b", "a..", "..", "[i]"][f as usize]
+    ["a..b", "a..=b", "..b", "..=b", "a..", "..", "[i]", "a..=a-1"][f as usize]
 }
 
 fn check<C: Cm>(case: &Case) -> PResult {
@@ -131,10 +140,10 @@ fn check<C: Cm>(case: &Case) -> PResult {
         abs_start += a;
         cur = next;
         depth += 1;
-        check_content(&sy, cur, model, &format!("slice/{n}")).map_err(|f| Fail { site: f.site, msg: format!("after {} (a={a}, b={b}) at depth {depth}: {}", form_name(form), f.msg) })?;
+        check_indexed(&sy, cur, model, &format!("slice/{n}")).map_err(|f| Fail { site: f.site, msg: format!("after {} (a={a}, b={b}) at depth {depth}: {}", form_name(form), f.msg) })?;
     }
     if depth == 0 {
-        check_content(&sy, cur, model, &format!("slice/{n}"))?;
+        check_indexed(&sy, cur, model, &format!("slice/{n}"))?;
     }
     // parent unchanged
     check_symbols(&sy, root, &root_codes, &format!("parent/{n}"))?;
@@ -148,7 +157,7 @@ fn check<C: Cm>(case: &Case) -> PResult {
             None => (o.over % 3) as usize + 1,
         };
         let a = scale16(o.a, len);
-        let kind = o.kind % 8;
+        let kind = o.kind % 10;
         let what;
         let outcome: Result<Option<String>, String> = match kind {
             0 => {
@@ -174,6 +183,14 @@ fn check<C: Cm>(case: &Case) -> PResult {
             5 => {
                 what = format!("[{}] on length {len}", len + over - 1);
                 quiet_catch(|| Some(cur[len + over - 1].to_string()))
+            }
+            8 => {
+                what = format!("[{}..={}] on length {len}", len + over, len + over - 1);
+                quiet_catch(|| Some(cur[len + over..=len + over - 1].to_string()))
+            }
+            9 => {
+                what = format!("[{0}..{0}] on length {len}", len + over);
+                quiet_catch(|| Some(cur[len + over..len + over].to_string()))
             }
             6 => {
                 what = format!("nth({}) on length {len}", len + over - 1);
@@ -209,10 +226,10 @@ pub fn dispatch(case: &Case) -> PResult {
 }
 
 fn case_strategy(id: CodecId, max: usize) -> BoxedStrategy<Case> {
-    let op = (0..7u8, any::<u16>(), any::<u16>()).prop_map(|(form, a, b)| RangeOp { form, a, b });
+    let op = (0..8u8, any::<u16>(), any::<u16>()).prop_map(|(form, a, b)| RangeOp { form, a, b });
     let oob = prop_oneof![
         3 => Just(None),
-        1 => (0..8u8, any::<u16>(), 0..3u8, proptest::option::weighted(0.35, any::<u8>())).prop_map(|(kind, a, over, far)| Some(Oob { kind, a, over, far })),
+        1 => (0..10u8, any::<u16>(), 0..3u8, proptest::option::weighted(0.35, any::<u8>())).prop_map(|(kind, a, over, far)| Some(Oob { kind, a, over, far })),
     ];
     (gen::seq_spec(id, max), vec(op, 1..=3), oob).prop_map(move |(root, path, oob)| Case { codec: id, root, path, oob }).boxed()
 }
@@ -235,7 +252,7 @@ pub fn run(ctx: &mut Ctx) {
         let mut cases = vec![];
         for a in 0..=len {
             for b in a..=len {
-                for form in [0u8, 1, 2, 3, 4, 6] {
+                for form in [0u8, 1, 2, 3, 4, 6, 7] {
                     // exact (a, b): encode through the inverse of scale16
                     let enc = |v: usize, max: usize| -> u16 { (((v << 16) + max) / (max + 1)).min(65535) as u16 };
                     let op = RangeOp { form, a: enc(a, len), b: enc(b - a, len - a) };
@@ -243,7 +260,7 @@ pub fn run(ctx: &mut Ctx) {
                 }
             }
         }
-        for kind in 0..8u8 {
+        for kind in 0..10u8 {
             for over in 0..3u8 {
                 for a in [0u16, 30000, 65535] {
                     cases.push(Case { codec: id, root: root.clone(), path: vec![RangeOp { form: 5, a: 0, b: 0 }], oob: Some(Oob { kind, a, over, far: None }) });
@@ -252,7 +269,7 @@ pub fn run(ctx: &mut Ctx) {
             }
         }
         // every out-of-bounds kind x every far-out index (incl. those whose bit position wraps)
-        for kind in 0..8u8 {
+        for kind in 0..10u8 {
             for sel in 0..18u8 {
                 for a in [0u16, 65535] {
                     cases.push(Case { codec: id, root: root.clone(), path: vec![RangeOp { form: 5, a: 0, b: 0 }], oob: Some(Oob { kind, a, over: 0, far: Some(sel) }) });
@@ -268,7 +285,7 @@ pub fn run(ctx: &mut Ctx) {
             &format!("paths_long/{}", id.name()),
             &lens,
             |n| {
-                let op = (0..7u8, any::<u16>(), any::<u16>()).prop_map(|(form, a, b)| RangeOp { form, a, b });
+                let op = (0..8u8, any::<u16>(), any::<u16>()).prop_map(|(form, a, b)| RangeOp { form, a, b });
                 (gen::seq_spec_n(id, n), vec(op, 1..=3)).prop_map(move |(root, path)| Case { codec: id, root, path, oob: None })
             },
             dispatch,
